@@ -478,4 +478,29 @@ func (s *SweepingProvider) schedulePrefixNoLock(prefix bitstr.Key, justReprovide
   ghost at call(FindPrefixOfKey): $covered = $ret1
   ghost at before call(unscheduleSubsumedPrefixesNoLock): assert($arg0 == prefix && !$covered); $unsub = true
   ghost at before call(Add): assert(!$covered && $unsub && $arg0 == prefix && $arg1 <= $t && imp(!justReprovided, $arg1 == $t) && imp(justReprovided, $arg1 <= $cto + s.reprovideInterval + s.maxReprovideDelay && ($arg1 == $t || $arg1 == $cto + s.reprovideInterval + s.maxReprovideDelay)))
+
+# ---- garbage collection of the reprovide history (C17: restart resumes correctly) ---
+# only entries that are unparsable or not after the deadline (now - interval) are
+# deleted, never a fresh one; nothing is touched once the provider is closed or
+# when the last collection is less than an interval old
+func (s *SweepingProvider) gcReprovideHistoryIfNeeded(now time.Time)
+  props C17
+  ghostvar $closed bool = true
+  ghostvar $age time.Duration = 0
+  ghostvar $perr error = nil
+  ghostvar $fresh bool = false
+  ghostvar $deadline time.Time = any
+  ghostvar $t time.Time = any
+  ghostvar $k string = ""
+  modifies *
+  ghost at call(closed): $closed = $ret0
+  ghost at call(Sub): $age = $ret0
+  ghost at before call(Add): assert($arg0 == -s.reprovideInterval && $recv == now)
+  ghost at call(Add): $deadline = $ret0
+  ghost at before call(Query): assert(!$closed && !($age < s.reprovideInterval) && $arg1.Prefix == reprovideHistoryKeyPrefix && $arg1.KeysOnly)
+  ghost at before call(parseReprovideHistoryKey): $k = $arg0
+  ghost at call(parseReprovideHistoryKey): $t = $ret0; $perr = $ret2
+  ghost at before call(After): assert($recv == $t && $arg0 == $deadline)
+  ghost at call(After): $fresh = $ret0
+  ghost at before call(NewKey): assert($arg0 == $k && ($perr != nil || !$fresh))
 @*/
